@@ -16,6 +16,11 @@ theorem action_not_group {t : Str} (h : kindOf t = .action) : t ≠ "split_by_gr
 theorem action_not_value {t : Str} (h : kindOf t = .action) : t ≠ "split_by_value".toList := by
   intro e; rw [e, kindOf_value] at h; cases h
 
+theorem action_not_noop {c : CRow} (h : kindOf c.row.type = .action) : isNoop c = false := by
+  unfold isNoop
+  rw [decide_eq_false_iff_not]
+  intro e; rw [e] at h; revert h; decide
+
 theorem input_ne : ("@input.text".toList).isEmpty = false := by decide
 
 /-- the test the compiler stores for a conditional edge leaving an action row is the reference's -/
@@ -98,8 +103,8 @@ theorem baseNames_action (tmo : Nat) : baseNames .action tmo = ["Other".toList] 
   unfold baseNames
   rw [if_neg (fun h => by cases h.1)]
 
-theorem ImplSim.allNames {M : Maps} {ns : Array NodeM} {n : NodeM} {c : CRow} {es : List OutEdge} {i' : Nat} {n' : NodeM}
-    {r : SwitchR} (hp : ImplSim M ns n c es i' n' r) :
+theorem ImplSim.allNames {M : Maps} {ns : Array NodeM} {n : NodeM} {c : CRow} {post : List Str} {es : List OutEdge} {i' : Nat} {n' : NodeM}
+    {r : SwitchR} (hp : ImplSim M ns n c post es i' n' r) :
     r.allCats.map (·.name) = namesFrom .action (timeoutOf c.row) [] (testsOf .action es) ++ baseNames .action (timeoutOf c.row) := by
   unfold SwitchR.allCats
   rw [hp.noResp, baseNames_action]
@@ -115,16 +120,18 @@ variable (rows : List CRow) (M : Maps) (pd : Bool) (kg : Nat) (d : Dest) (tgt : 
 
 /-- what the state must look like afterwards (the ghost map may have learnt of a router node) -/
 abbrev EdgePost' : PUnit → St → Prop := fun _ s' =>
-  ∃ M' : Maps, (∀ t, M'.nOf t = M.nOf t) ∧
-    Rel rows M' pd kg s' { st with out := newEdge tgt cond j :: st.out } ∧ NExt s.nodes s'.nodes
+  ∃ M' : Maps, (∀ t, M'.nOf t = M.nOf t) ∧ M'.el = M.el ∧ M'.fr = M.fr ∧
+    Rel rows M' pd kg s' { st with out := newEdge tgt cond j :: st.out } ∧ NExt s.nodes s'.nodes ∧
+    ∀ g0, g0 ≠ gOf rows j → s'.groups[g0]? = s.groups[g0]?
 
 variable (h : Rel rows M pd kg s st) (hj : j < kg) (hn : s.nodes[M.nOf j]? = some n) (hc : rows[j]? = some c)
-  (hnode : isNodeRow c = true) (hk : kindOf c.row.type = .action)
-  (hd : DestIs M s.nodes d (some tgt)) (htg : ∀ t, tgt = Target.row t → t < kg ∨ (pd = true ∧ t = kg))
+  (hnode : isNodeRow c = true ∧ M.el j = false) (hk : kindOf c.row.type = .action)
+  (hd : DestIs M s.nodes d (some tgt))
+  (htg : ∀ t, tgt = Target.row t → (t < kg ∨ (pd = true ∧ t = kg)) ∧ M.fr t = false)
 include h hj hn hc hnode hk hd htg
 
 /-- every arena index in use is below the size of the arena -/
-theorem idx_lt (j0 : Nat) (c0 : CRow) (hv : Valid rows pd kg j0 c0) : ∀ x ∈ idxs M j0, x < s.nodes.size := by
+theorem idx_lt (j0 : Nat) (c0 : CRow) (hv : Valid rows M pd kg j0 c0) : ∀ x ∈ idxs M j0, x < s.nodes.size := by
   intro x hx
   obtain ⟨m, hm, hsim⟩ := h.node j0 c0 hv
   simp only [idxs, List.mem_cons] at hx
@@ -141,7 +148,7 @@ theorem idx_lt (j0 : Nat) (c0 : CRow) (hv : Valid rows pd kg j0 c0) : ∀ x ∈ 
 /-- an unconditional edge leaving an action row that has a router node behind it: the router's
 default category -/
 theorem impl_blank_sim (i' : Nat) (n' : NodeM) (r : SwitchR) (hro : M.rOf j = some i')
-    (hp : ImplSim M s.nodes n c (outOf st j) i' n' r) (he : cond.blank = true) :
+    (hp : ImplSim M s.nodes n c (postUpTo rows kg j) (outOf st j) i' n' r) (he : cond.blank = true) :
     wp (rowExitBlank i' n' d) s (EdgePost' rows M pd kg tgt cond s st j) := by
   unfold rowExitBlank
   split
@@ -157,7 +164,7 @@ theorem impl_blank_sim (i' : Nat) (n' : NodeM) (r : SwitchR) (hro : M.rOf j = so
   have hne : i' ≠ M.nOf j := h.rne j i' hro
   have hext : NExt s.nodes (s.nodes.setIfInBounds i' { n' with router := some (.sw (r.setDflt d)) }) :=
     NExt.set hp.rnode rfl
-  refine ⟨M, fun _ => rfl, ?_, hext⟩
+  refine ⟨M, fun _ => rfl, rfl, rfl, ?_, hext, fun _ _ => rfl⟩
   refine Rel.updateG h (newEdge tgt cond j) rfl hj hc hnode htg i' (by simp [idxs, hro]) hext
     (fun i hi => set_getElem?_other _ _ _ _ hi) rfl rfl rfl rfl (Nat.le_refl _) ?_ ?_
   · refine ⟨n, by rw [set_getElem?_other _ _ _ _ hne.symm]; exact hn, ?_⟩
@@ -184,7 +191,7 @@ theorem impl_blank_sim (i' : Nat) (n' : NodeM) (r : SwitchR) (hro : M.rOf j = so
 /-- a further conditional edge leaving an action row: a new case and a new category of the router
 node behind it -/
 theorem impl_test_sim (i' : Nat) (n' : NodeM) (r : SwitchR) (hro : M.rOf j = some i')
-    (hp : ImplSim M s.nodes n c (outOf st j) i' n' r) (he : cond.blank = false)
+    (hp : ImplSim M s.nodes n c (postUpTo rows kg j) (outOf st j) i' n' r) (he : cond.blank = false)
     (hfreeN : cond.name ≠ [] → cond.name ∉ namesFrom .action (timeoutOf c.row) [] (testsOf .action (outOf st j)) ++
       baseNames .action (timeoutOf c.row))
     (hvar : cond.var = implVar (outOf st j ++ [newEdge tgt cond j]))
@@ -256,7 +263,7 @@ theorem impl_test_sim (i' : Nat) (n' : NodeM) (r : SwitchR) (hro : M.rOf j = som
     rw [hr'']
     have hne : i' ≠ M.nOf j := h.rne j i' hro
     have hext : NExt s.nodes (s.nodes.setIfInBounds i' { n' with router := some (.sw r') }) := NExt.set hp.rnode rfl
-    refine ⟨M, fun _ => rfl, ?_, hext⟩
+    refine ⟨M, fun _ => rfl, rfl, rfl, ?_, hext, fun _ _ => rfl⟩
     refine Rel.updateG h (newEdge tgt cond j) rfl hj hc hnode htg i' (by simp [idxs, hro]) hext
       (fun i hi => set_getElem?_other _ _ _ _ hi) rfl rfl rfl rfl (Nat.le_add_right _ _) ?_ ?_
     · refine ⟨n, by rw [set_getElem?_other _ _ _ _ hne.symm]; exact hn, ?_⟩
@@ -298,12 +305,13 @@ theorem impl_test_sim (i' : Nat) (n' : NodeM) (r : SwitchR) (hro : M.rOf j = som
 
 /-- the state after the router node has been created behind the node of row `j` and has been given
 its first case, described by what matters -/
-theorem impl_first_post (hro : M.rOf j = none) (hp : PlainSim M s.nodes n c.row.action (outOf st j))
+theorem impl_first_post (hro : M.rOf j = none) (hp : PlainSim M s.nodes n c.row.action (postUpTo rows kg j) (outOf st j))
     (he : cond.blank = false)
     (s' : St) (rn0 n2 rn2 : NodeM) (rr : SwitchR) (k0 : Case) (c0 : Cat)
     (hnodes : s'.nodes = ((s.nodes.push rn0).setIfInBounds (M.nOf j) n2).setIfInBounds s.nodes.size rn2)
     (hg' : s'.groups = s.groups.setIfInBounds (gOf rows j) (.row [M.nOf j, s.nodes.size] c.row.type))
-    (hst' : s'.stack = s.stack) (hri' : s'.rowIds = s.rowIds) (hna' : s'.noArgs = s.noArgs) (hnx : s.next ≤ s'.next)
+    (hst' : s'.stack = s.stack) (hri' : s'.rowIds = s.rowIds) (hna' : s'.noArgs = s.noArgs) (hnm' : s'.names = s.names)
+    (hnx : s.next ≤ s'.next)
     (h2u : n2.uid = n.uid) (h2k : n2.kind = n.kind) (h2a : n2.actions = n.actions) (h2r : n2.router = n.router)
     (h2d : n2.dexitDest = Dest.node rn2.uid)
     (hrk : rn2.kind = NodeKind.switch) (hra : rn2.actions = []) (hrr : rn2.router = some (.sw rr))
@@ -314,12 +322,12 @@ theorem impl_first_post (hro : M.rOf j = none) (hp : PlainSim M s.nodes n c.row.
     (hc0n : c0.name = catNameOf .action (timeoutOf c.row) [] (toRCond cond)) (hdn : rr.dflt.name = "Other".toList) :
     EdgePost' rows M pd kg tgt cond s st j ⟨⟩ s' := by
   have heb : (newEdge tgt cond j).cond.blank = false := by simpa [toRCond_blank] using he
-  have hg := h.grp j c hj hc hnode
+  have hg := h.grp j c hj hc hnode.1 (action_not_noop hk)
   rw [hro] at hg
   simp only [Option.toList] at hg
   have hgl : gOf rows j < s.groups.size := (Array.getElem?_eq_some_iff.mp hg).1
   have hnl : M.nOf j < s.nodes.size := (Array.getElem?_eq_some_iff.mp hn).1
-  have hvj : Valid rows pd kg j c := ⟨.inl hj, hc, hnode⟩
+  have hvj : Valid rows M pd kg j c := ⟨.inl hj, hc, hnode⟩
   have hn2 : s'.nodes[M.nOf j]? = some n2 := by
     rw [hnodes]
     have h1 : ¬ (s.nodes.size = M.nOf j) := by omega
@@ -336,6 +344,10 @@ theorem impl_first_post (hro : M.rOf j = none) (hp : PlainSim M s.nodes n c.row.
     rw [if_neg (fun e => hk2 e.symm), if_neg (fun e => hk1 e.symm), Array.getElem?_push, if_neg hk2]
   obtain ⟨M', hM'⟩ : ∃ M' : Maps, M' = { M with rOf := fun x => if x = j then some s.nodes.size else M.rOf x } := ⟨_, rfl⟩
   have hMn : ∀ t, M'.nOf t = M.nOf t := by intro t; rw [hM']
+  have hMel : M'.el = M.el := by rw [hM']
+  have hMfr : M'.fr = M.fr := by rw [hM']
+  have hvc : ∀ j0 c0', Valid rows M' pd kg j0 c0' → Valid rows M pd kg j0 c0' :=
+    fun _ _ hv => ⟨hv.1, hv.2.1, hv.2.2.1, by rw [← hMel]; exact hv.2.2.2⟩
   have hMrj : M'.rOf j = some s.nodes.size := by rw [hM']; simp
   have hMro : ∀ t, t ≠ j → M'.rOf t = M.rOf t := by intro t ht; rw [hM']; simp [ht]
   have hext : NExt s.nodes s'.nodes := by
@@ -345,7 +357,7 @@ theorem impl_first_post (hro : M.rOf j = none) (hp : PlainSim M s.nodes n c.row.
     · have : i < s.nodes.size := (Array.getElem?_eq_some_iff.mp hm).1
       exact ⟨m, by rw [hoth i hij (by omega)]; exact hm, rfl⟩
   -- arena indices of the other rows are untouched
-  have hother : ∀ j0 c0', Valid rows pd kg j0 c0' → j0 ≠ j → ∀ x ∈ idxs M j0, x ≠ M.nOf j ∧ x ≠ s.nodes.size := by
+  have hother : ∀ j0 c0', Valid rows M pd kg j0 c0' → j0 ≠ j → ∀ x ∈ idxs M j0, x ≠ M.nOf j ∧ x ≠ s.nodes.size := by
     intro j0 c0' hv hne x hx
     refine ⟨fun e => hne (h.disj j0 c0' j c hv hvj x hx (by rw [e]; simp [idxs])), ?_⟩
     have := idx_lt rows M pd kg d tgt s st j n c h hj hn hc hnode hk hd htg j0 c0' hv x hx
@@ -354,13 +366,15 @@ theorem impl_first_post (hro : M.rOf j = none) (hp : PlainSim M s.nodes n c.row.
     rw [tests_action_append _ _ heb, tests_action_nil _ hp.blank]; rfl
   have hiv : implVar (outOf st j ++ [newEdge tgt cond j]) = cond.var := implVar_first _ _ hp.blank heb
   have how := ow_impl cond (outOf st j ++ [newEdge tgt cond j]) hiv
-  refine ⟨M', hMn, ?_, hext⟩
-  refine ⟨by rw [hg']; simpa using h.gsize, ?_, ?_, by rw [hst']; exact h.stack, by rw [hri']; exact h.ids, h.idok, h.prev,
-    ?_, ?_, by rw [hna']; exact h.args, ?_, ?_, ?_, ?_, ?_⟩
+  refine ⟨M', hMn, hMel, hMfr, ?_, hext, fun g0 hg0 => by rw [hg', Array.getElem?_setIfInBounds, if_neg (fun e => hg0 e.symm)]⟩
+  refine ⟨by rw [hg']; simpa using h.gsize, ?_, ?_, ?_, by rw [hMel]; exact h.elno, by rw [hMel, hMfr]; exact h.frel, ?_,
+    by rw [hst']; exact h.stack, by rw [hri']; exact h.ids, h.idok, h.prev,
+    ?_, ?_, by rw [hna']; exact h.args, ?_, ?_, ?_, ?_, ?_, ?_,
+    by rw [hnm']; exact h.names.congr (fun i _ _ _ _ _ => hMn i)⟩
   · rw [hg', Array.getElem?_setIfInBounds]
     have := gOf_pos rows j
     rw [if_neg (by omega)]; exact h.root
-  · intro j0 c0' hj0 hc0' hn0
+  · intro j0 c0' hj0 hc0' hn0 hnn0
     rw [hg', Array.getElem?_setIfInBounds]
     by_cases hjj : j0 = j
     · subst hjj
@@ -369,18 +383,36 @@ theorem impl_first_post (hro : M.rOf j = none) (hp : PlainSim M s.nodes n c.row.
     · have hne : gOf rows j ≠ gOf rows j0 := by
         rcases Nat.lt_or_gt_of_ne hjj with h1 | h1
         · have := gOf_lt rows h1 hc0' hn0; omega
-        · have := gOf_lt rows h1 hc hnode; omega
+        · have := gOf_lt rows h1 hc hnode.1; omega
       rw [if_neg hne, hMn, hMro j0 hjj]
-      exact h.grp j0 c0' hj0 hc0' hn0
+      exact h.grp j0 c0' hj0 hc0' hn0 hnn0
+  · intro j0 c0' hj0 hc0' hnn0
+    have hjj : j0 ≠ j := by
+      intro e; subst e
+      rw [hc] at hc0'; injection hc0' with hc0'; subst hc0'
+      rw [action_not_noop hk] at hnn0; cases hnn0
+    have hn0 : isNodeRow c0' = true := isNodeRow_of_noop hnn0
+    have hne : gOf rows j ≠ gOf rows j0 := by
+      rcases Nat.lt_or_gt_of_ne hjj with h1 | h1
+      · have := gOf_lt rows h1 hc0' hn0; omega
+      · have := gOf_lt rows h1 hc hnode.1; omega
+    rw [hg', Array.getElem?_setIfInBounds, if_neg hne, hMel, hMn]
+    exact h.grpN j0 c0' hj0 hc0' hnn0
+  · intro o ho t ht
+    simp only [List.mem_cons] at ho
+    rw [hMfr]
+    rcases ho with rfl | ho
+    · exact (htg t ht).2
+    · exact h.tgtfr o ho t ht
   · intro o ho
     simp only [List.mem_cons] at ho
     rcases ho with rfl | ho
-    · exact ⟨hj, c, hc, hnode⟩
+    · exact ⟨hj, c, hc, hnode.1⟩
     · exact h.srcok o ho
   · intro o ho t ht
     simp only [List.mem_cons] at ho
     rcases ho with rfl | ho
-    · exact htg t ht
+    · exact (htg t ht).1
     · exact h.tgtok o ho t ht
   · intro j0 c0' hv
     by_cases hjj : j0 = j
@@ -409,8 +441,8 @@ theorem impl_first_post (hro : M.rOf j = none) (hp : PlainSim M s.nodes n c.row.
         rw [this]
         exact (hp.dest.ext hext).congrN hMn
       · rw [htests]; simp
-    · obtain ⟨m, hm, hsim⟩ := h.node j0 c0' hv
-      have ho := hother j0 c0' hv hjj
+    · obtain ⟨m, hm, hsim⟩ := h.node j0 c0' (hvc _ _ hv)
+      have ho := hother j0 c0' (hvc _ _ hv) hjj
       refine ⟨m, by rw [hMn, hoth _ (ho _ (by simp [idxs])).1 (ho _ (by simp [idxs])).2]; exact hm, ?_⟩
       rw [outOf_cons_other st (newEdge tgt cond j) j0 (fun e1 => hjj e1.symm), hMro j0 hjj]
       refine (hsim.transfer hext ?_).congrN hMn
@@ -430,7 +462,7 @@ theorem impl_first_post (hro : M.rOf j = none) (hp : PlainSim M s.nodes n c.row.
       · rw [h1, h2]
       · exfalso
         rw [if_pos h1] at hx1; rw [if_neg h2] at hx2
-        have := hother j2 c2 hv2 h2 x hx2
+        have := hother j2 c2 (hvc _ _ hv2) h2 x hx2
         simp only [List.mem_cons, List.not_mem_nil, or_false] at hx1
         rcases hx1 with e | e
         · exact this.1 e
@@ -438,19 +470,25 @@ theorem impl_first_post (hro : M.rOf j = none) (hp : PlainSim M s.nodes n c.row.
     · by_cases h2 : j2 = j
       · exfalso
         rw [if_neg h1] at hx1; rw [if_pos h2] at hx2
-        have := hother j1 c1 hv1 h1 x hx1
+        have := hother j1 c1 (hvc _ _ hv1) h1 x hx1
         simp only [List.mem_cons, List.not_mem_nil, or_false] at hx2
         rcases hx2 with e | e
         · exact this.1 e
         · exact this.2 e
       · rw [if_neg h1] at hx1; rw [if_neg h2] at hx2
-        exact h.disj j1 c1 j2 c2 hv1 hv2 x hx1 hx2
+        exact h.disj j1 c1 j2 c2 (hvc _ _ hv1) (hvc _ _ hv2) x hx1 hx2
   · intro j1 i' hi'
     by_cases h1 : j1 = j
     · subst h1; rw [hMrj] at hi'; injection hi' with hi'; rw [← hi', hMn]; omega
     · rw [hMro j1 h1] at hi'; rw [hMn]; exact h.rne j1 i' hi'
   · intro j1 hj1
     rw [hMro j1 (by omega)]; exact h.rnone j1 hj1
+  · intro j1 c1 hc1 hn1
+    have : j1 ≠ j := by
+      intro e; subst e
+      rw [hc] at hc1; injection hc1 with hc1; subst hc1
+      rw [action_not_noop hk] at hn1; cases hn1
+    rw [hMro j1 this]; exact h.rnoop j1 c1 hc1 hn1
   · intro i m r hm hr cat hcat
     by_cases hi1 : i = M.nOf j
     · subst hi1; rw [hn2] at hm; injection hm with hm; subst hm
@@ -464,7 +502,7 @@ theorem impl_first_post (hro : M.rOf j = none) (hp : PlainSim M s.nodes n c.row.
 
 /-- the first conditional edge leaving an action row: a router node is created behind the row's node,
 inherits its unconditional exit, and gets the first case -/
-theorem impl_first_sim (hro : M.rOf j = none) (hp : PlainSim M s.nodes n c.row.action (outOf st j))
+theorem impl_first_sim (hro : M.rOf j = none) (hp : PlainSim M s.nodes n c.row.action (postUpTo rows kg j) (outOf st j))
     (he : cond.blank = false)
     (hfreeN : cond.name ≠ [] → cond.name ∉ namesFrom .action (timeoutOf c.row) [] (testsOf .action (outOf st j)) ++
       baseNames .action (timeoutOf c.row)) :
@@ -509,7 +547,7 @@ theorem impl_first_sim (hro : M.rOf j = none) (hp : PlainSim M s.nodes n c.row.a
   intro _
   wp_simp [wp_setNode]
   simp only [hopne, Bool.false_eq_true, if_false]
-  refine post _ _ _ _ _ _ _ rfl rfl rfl rfl rfl (by simp only []; omega) rfl rfl rfl rfl rfl rfl rfl rfl rfl rfl rfl rfl
+  refine post _ _ _ _ _ _ _ rfl rfl rfl rfl rfl rfl (by simp only []; omega) rfl rfl rfl rfl rfl rfl rfl rfl rfl rfl rfl rfl
     rfl rfl rfl ?_ rfl rfl ?_ rfl
   · simp only [List.nil_append]
     rw [h.args]; exact hstored0
